@@ -4,7 +4,7 @@
     the valid split times, the trailing piece, and the call of
     [_extract_subsequences] on them.  Times are exact ticks; qpm is in 2^-20 units.
     No proofs in this file. *)
-From Coq Require Import ZArith List Bool.
+From Coq Require Import ZArith List Bool Sorted.
 From NS Require Import Base.Sx Base.NoteSeq Gen.G02 Model.Extract.
 Import ListNotations.
 Local Open Scope Z_scope.
@@ -127,3 +127,26 @@ Definition silence_valid (s : seq) (gap : Z) : list Z :=
 
 Definition split_silence (s : seq) (gap : Z) : res (list seq) :=
   extract_valid s (silence_valid s gap).
+
+(** * Declarative vocabulary used by the theorems (not by the models above) *)
+
+(** a note is sounding strictly across instant [t] *)
+Definition sounding_at (t : Z) (n : note) : bool := (n_start n <? t) && (t <? n_end n).
+
+(** a split at [t] is allowed: not requested to skip, or no note sounds across [t] *)
+Definition split_allowed (skip : bool) (notes : list note) (t : Z) : bool :=
+  negb (skip && existsb (sounding_at t) notes).
+
+(** the events that really change the time signature or tempo in force
+    (fold semantics: each event is compared with the value set by the events before it) *)
+Fixpoint genuine (st : tcstate) (evs : list tchange) : list tchange :=
+  match evs with
+  | [] => []
+  | c :: r => if tc_same st c then genuine st r else c :: genuine (tc_update st c) r
+  end.
+
+(** the latest note end seen so far (never below [la]) *)
+Definition active (la : Z) (pre : list note) : Z :=
+  fold_left (fun a n => Z.max a (n_end n)) pre la.
+
+Definition strictly_inc (l : list Z) : Prop := Sorted.StronglySorted Z.lt l.
